@@ -4,6 +4,23 @@ import os
 from . import common
 
 
+def _failures_of(ctx, stem, kv):
+    """Failure lines of the harness run that just finished for `stem` (read at once: a later run of the same sub-command
+    overwrites the file).  Histories write `hist.failures` whatever row stream is replayed.  If the harness reports more
+    failures than lines can be read, a line saying so is added, so that nothing is dropped silently."""
+    f = os.path.join(ctx.work, f"{stem}.failures")
+    if not os.path.exists(f) and "-" in stem:
+        f = os.path.join(ctx.work, f"{stem.split('-')[0]}.failures")
+    lines = [l for l in open(f).read().splitlines() if l.strip()] if os.path.exists(f) else []
+    try:
+        n = int(kv.get("oracle_failures", "0") or 0)
+    except ValueError:
+        n = 0
+    if n > len(lines):
+        lines.append(f"{stem}: {n - len(lines)} further oracle failure(s) reported by the harness without a readable failure line")
+    return lines, f
+
+
 def standard(ctx, prop_mods, harness_args, driver_mode, stem, sources, rule, what_corr, what_oracle,
              assumptions=(), extra_cov=None, nontrivial=None, oracle_keyer=None, also=()):
     proved = common.prove(ctx, prop_mods)
@@ -17,13 +34,15 @@ def standard(ctx, prop_mods, harness_args, driver_mode, stem, sources, rule, wha
         rc, out, kv = common.harness(ctx, list(harness_args) + ["--out", ctx.work])
         r = {"rows": 0, "ndiff": 0, "diffs": [], "kinds": {}, "samples": [], "kv": kv, "ok": rc == 0, "out": out, "errors": {}}
     kv = r["kv"]
+    fails, fails_file = _failures_of(ctx, stem, kv)
     # further streams (harness command, driver mode, stem) whose rows and failures are added
-    extra_fail_files = []
     for (a_args, a_mode, a_stem) in also:
         r2 = common.correspond(ctx, a_args, a_mode, a_stem) if a_mode else None
         if r2 is None:
             rc2, out2, kv2 = common.harness(ctx, list(a_args) + ["--out", ctx.work])
             r2 = {"rows": 0, "ndiff": 0, "diffs": [], "kinds": {}, "samples": [], "kv": kv2, "ok": rc2 == 0, "out": out2, "errors": {}}
+        if a_args is not None:      # (a replay-only stream has no harness run of its own)
+            fails += _failures_of(ctx, a_stem, r2["kv"])[0]
         r["rows"] += r2["rows"]
         r["ndiff"] += r2["ndiff"]
         r["diffs"] += r2["diffs"]
@@ -37,17 +56,9 @@ def standard(ctx, prop_mods, harness_args, driver_mode, stem, sources, rule, wha
                 kv[k] = str(int(kv.get(k, "0") or 0) + int(v or 0))
             else:
                 kv.setdefault(a_stem + "." + k, v)
-        extra_fail_files.append(os.path.join(ctx.work, f"{a_stem}.failures"))
-    fails_file = os.path.join(ctx.work, f"{stem}.failures")
-    if not os.path.exists(fails_file) and "-" in stem:   # hist-tree / hist-filter rows come with hist.failures
-        fails_file = os.path.join(ctx.work, f"{stem.split('-')[0]}.failures")
-    fails = [l for l in open(fails_file).read().splitlines() if l.strip()] if os.path.exists(fails_file) else []
-    for ff in extra_fail_files:
-        if os.path.exists(ff) and ff != fails_file:
-            fails += [l for l in open(ff).read().splitlines() if l.strip()]
     samples_file = os.path.join(ctx.work, f"{stem}.samples")
     hsamples = [l[:400] for l in open(samples_file).read().splitlines() if l.strip()][:6] if os.path.exists(samples_file) else []
-    n_oracle = int(kv.get("oracle_failures", "0") or 0)
+    n_oracle = max(int(kv.get("oracle_failures", "0") or 0), len(fails))
     evals = r["rows"] + sum(int(kv.get(k, "0") or 0) for k in ("deliveries", "commits", "cases", "messages"))
     ctx.cov.update({"evaluations": max(evals, 1),
                     "distinct_nontrivial": nontrivial(r, kv) if nontrivial else max(r["rows"], len((kv.get("cover", "") or "").split(","))),
@@ -70,7 +81,7 @@ def standard(ctx, prop_mods, harness_args, driver_mode, stem, sources, rule, wha
             groups.setdefault(k, []).append(f)
         for k, fl in groups.items():
             ctx.violation("oracle", what_oracle, {"failures": fl[:40], "log_file": fails_file,
-                                                  "replay": f"cd /verif/harness && target/debug/vharness {' '.join(map(str, harness_args))} --seed {ctx.seed} --tier {ctx.tier}"},
+                                                  "replay": f"cd /verif/harness && target/debug/vharness {' '.join(map(str, harness_args))} --seed {ctx.seed * 100 + int(ctx.pid[1:])} --tier {ctx.tier}"},
                           key=k)
     if not proved:
         ctx.violation("proof", f"theorem(s) of {' '.join(prop_mods)} no longer check", ctx.proof_failure,
